@@ -45,9 +45,22 @@ def freshFrom (used : List String) (base : String) : Nat → Nat → String
 
 def fresh (used : List String) (base : String) : String := freshFrom used base used.length 0
 
-/-- the components below an import that is being instantiated: every name is de-clashed against the names of the
-    importing model as they were before this instance -/
-def declash (used names : List String) : List String := names.map (fresh used)
+/-- the pinned tree's loop: every name of the subtree is de-clashed against the names of the importing model as they were
+    before this instance, one name at a time — two names of the subtree can end up equal (`a` renamed to `a_1` next to a
+    sibling `a_1`): see `Props.C06.declashPinned_collides` -/
+def declashPinned (used names : List String) : List String := names.map (fresh used)
+
+/-- the repaired loop: a name that clashes with the importing model gets the first candidate that is neither in the
+    importing model, nor a name of the subtree, nor already given out -/
+def declashGo (used : List String) : List String → List String → List String
+  | _, [] => []
+  | taken, n :: rest =>
+    if used.contains n then
+      let n' := fresh taken n
+      n' :: declashGo used (n' :: taken) rest
+    else n :: declashGo used taken rest
+
+def declash (used names : List String) : List String := declashGo used (used ++ names) names
 
 /-- instantiating the same subtree `k` times, one after the other -/
 def instantiate (used names : List String) : Nat → List String
